@@ -1221,6 +1221,11 @@ def widen_reduce(x, v):
     vector argument and its scalar argument means reduce_max (reduce_min) of the widened vector (V, s)"""
     tu = v.tu
     if x[0] == 'call' and x[1] in ('max', 'min') and len(x[2]) == 2:
+        # max(reduce_max(V), s) is reduce_max of the widened vector (V, s); likewise for min
+        for i in (0, 1):
+            r, other = x[2][i], x[2][1 - i]
+            if r[0] == 'call' and r[1] == 'reduce_' + x[1] and len(r[2]) == 1 and not (other[0] == 'call' and other[1].startswith('reduce_')):
+                return ('call', 'reduce_' + x[1], (('ctor', 'vec_t<widened>', (r[2][0], other)),))
         # the same fold written out (e.g. a helper already inlined): max(max(V.x, V.y), max(V.z, s))
         leaves = flatten(x, x[1])
         mem = [l for l in leaves if l[0] == 'm' and l[2] in COMPS]
@@ -1301,6 +1306,13 @@ def fam_raybox(res, s, v, tu=None):
     bad = False
     for side, nm, red, mm, bound in ((t[2][0], 'entry', 'reduce_max', 'min', LO), (t[2][1], 'exit', 'reduce_min', 'max', HI)):
         x = widen_reduce(strip_casts(side, pred=lambda ty: not ty.startswith('vec_t<')), v)
+        if x[0] == 'mcall' and x[1] == 'clamp' and x[2] == tr and len(x[3]) == 1:
+            res.bad(R5, 'intersectRayBox: the %s parameter is `%s`: the slab value is clamped into tRange instead of being joined with '
+                        'tRange.%s only - an entry beyond tRange.upper is pulled back to tRange.upper (an exit before tRange.lower up to '
+                        'tRange.lower), so a crossing that lies entirely outside tRange yields the non-empty interval [upper, upper] '
+                        '(or [lower, lower]) instead of an empty one' % (nm, show(x, names)[:140], bound), 'slab-' + nm)
+            bad = True
+            continue
         shape = (x[0] == 'call' and len(x[2]) == 1 and x[2][0][0] == 'ctor' and len(x[2][0][2]) == 2
                  and x[2][0][2][0][0] == 'call' and len(x[2][0][2][0][2]) == 2)
         if not shape:
@@ -1623,7 +1635,11 @@ def resolved_callees(res, tu, f, v, rule):
         cf = tu.callee_fn(node)
         home = tu.fn_file(cf) if cf is not None else None
         if vec_args:
-            if home != 'rkcommon/math/vec.h':
+            if name in ('min', 'max') and q in ('std::min', 'std::max'):
+                res.bad(rule, '`%s` on vector bounds resolves to %s: it selects one whole vector by `operator<` on vec_t (a lexicographic '
+                              'order) instead of taking the component-wise %s, so the bound is wrong whenever the corner ordering differs '
+                              'between axes' % (name, q, name), 'std-minmax-on-vectors')
+            elif home != 'rkcommon/math/vec.h':
                 res.und(rule, '`%s` on vector operands resolves to %s (%s), not to the component-wise overload of vec.h' % (name, q, home))
         else:
             ok = (name == 'anyLessThan' and home == RANGE_H) or (name in ('min', 'max') and q in ('std::min', 'std::max'))
